@@ -234,12 +234,16 @@ defprog! {
       relation eq_out(u32, u32) [];
       relation rep(u32, u32) [];
       relation merged_late(u32, u32) [];
+      relation seen(u32, u32) [];
    }
    gens: [("eq_merge", gens::eq_merge), ("random", gens::random)];
    rules: {
       eq(x, y) <-- pair(x, y);
       eq(c, d) <-- eq(a, b), f(a, c), f(b, d);
       eq(c, d) <-- f(a, c), f(b, d), eq(a, b2), node(c), if b == b2;
+      // a full scan of the eqrel inside its own recursive stratum (reads the delta with no bound column)
+      seen(x, y) <-- eq(x, y);
+      eq(c, d) <-- seen(a, b), f(b, c), f(a, d), if c != d;
       merged_late(x, y) <-- node(x), eq(x, y), f(y, _), if x < y;
       eq_out(x, y) <-- eq(x, y);
       rep(x, y) <-- node(x), eq(x, y), if y <= x;
@@ -259,6 +263,7 @@ defprog! {
       relation eq_out(u32, u32) [];
       relation rep(u32, u32) [];
       relation merged_late(u32, u32) [];
+      relation seen(u32, u32) [];
    }
    gens: [("random", gens::random)];
    rules: {
@@ -267,6 +272,8 @@ defprog! {
       eq(x, y) <-- pair(x, y);
       eq(c, d) <-- eq(a, b), f(a, c), f(b, d);
       eq(c, d) <-- f(a, c), f(b, d), eq(a, b2), node(c), if b == b2;
+      seen(x, y) <-- eq(x, y);
+      eq(c, d) <-- seen(a, b), f(b, c), f(a, d), if c != d;
       merged_late(x, y) <-- node(x), eq(x, y), f(y, _), if x < y;
       eq_out(x, y) <-- eq(x, y);
       rep(x, y) <-- node(x), eq(x, y), if y <= x;
@@ -358,12 +365,16 @@ defprog_ser! {
       relation eq_out(u32, u32) [];
       relation rep(u32, u32) [];
       relation merged_late(u32, u32) [];
+      relation seen(u32, u32) [];
    }
    gens: [("eq_merge", gens::eq_merge), ("random", gens::random)];
    rules: {
       eq(x, y) <-- pair(x, y);
       eq(c, d) <-- eq(a, b), f(a, c), f(b, d);
       eq(c, d) <-- f(a, c), f(b, d), eq(a, b2), node(c), if b == b2;
+      // a full scan of the eqrel inside its own recursive stratum (reads the delta with no bound column)
+      seen(x, y) <-- eq(x, y);
+      eq(c, d) <-- seen(a, b), f(b, c), f(a, d), if c != d;
       merged_late(x, y) <-- node(x), eq(x, y), f(y, _), if x < y;
       eq_out(x, y) <-- eq(x, y);
       rep(x, y) <-- node(x), eq(x, y), if y <= x;
